@@ -252,6 +252,19 @@ def bv_binop(op, a, b):
         if op == 'Lt' and lo >= b.v or op == 'Le' and lo > b.v or op == 'Gt' and hi <= b.v or op == 'Ge' and hi < b.v:
             return Int(0, 1)
         return None
+    if op in ('Ne', 'Eq') and ((isinstance(a, BV) and isinstance(b, Int)) or (isinstance(b, BV) and isinstance(a, Int))):
+        # a word compared with zero: non-zero iff one of its bits is set -- a known one decides it, otherwise the OR of
+        # its symbolic bits (`w >> 63 != 0` is the top bit)
+        w_, k_ = (a, b) if isinstance(a, BV) else (b, a)
+        if k_.v == 0:
+            if any(x == 1 for x in w_.e):
+                return Int(1 if op == 'Ne' else 0, 1)
+            syms = [x for x in w_.e if isinstance(x, BitVal)]
+            if len(syms) == sum(1 for x in w_.e if x != 0):
+                if not syms:
+                    return Int(0 if op == 'Ne' else 1, 1)
+                if op == 'Ne':
+                    return syms[0] if len(syms) == 1 else OrBits([x.n for x in syms])
     if isinstance(a, Int) and isinstance(b, BV):
         if op == 'BitAnd':
             return b.and_const(a.v)
@@ -273,10 +286,24 @@ def kbits_binop(op, a, b):
     """Known-bits transfer for BitAnd / BitOr / Eq / Ne with a constant."""
     if isinstance(a, Int) and isinstance(b, KBits):
         a, b = b, a
-        if op in ('Lt', 'Le', 'Gt', 'Ge', 'Shl', 'Shr', 'Sub'):
+        if op in ('Lt', 'Le', 'Gt', 'Ge'):
+            op = {'Lt': 'Gt', 'Le': 'Ge', 'Gt': 'Lt', 'Ge': 'Le'}[op]
+        elif op in ('Shl', 'Shr', 'Sub'):
             return None
     if not (isinstance(a, KBits) and isinstance(b, Int)):
         return None
+    if op in ('Lt', 'Le', 'Gt', 'Ge'):
+        # order against a constant: decided when the range left open by the unknown bits settles it
+        # (`b >= 0x80` is bit 7)
+        lo = a.val & a.mask & 0xff
+        hi = lo | (~a.mask & 0xff)
+        if op == 'Ge':
+            return Int(1, 1) if lo >= b.v else (Int(0, 1) if hi < b.v else None)
+        if op == 'Gt':
+            return Int(1, 1) if lo > b.v else (Int(0, 1) if hi <= b.v else None)
+        if op == 'Lt':
+            return Int(1, 1) if hi < b.v else (Int(0, 1) if lo >= b.v else None)
+        return Int(1, 1) if hi <= b.v else (Int(0, 1) if lo > b.v else None)
     if op in ('Shr', 'ShrUnchecked') and b.v < 8:
         m_ = (a.mask >> b.v) | (0xff & ~(0xff >> b.v))
         if m_ == 0xff and not (a.cleared >> b.v):
@@ -500,6 +527,21 @@ def merge_val(bit, a, b):
         return TOP
     if isinstance(a, Agg) and isinstance(b, Agg) and len(a.items) == len(b.items):
         return Agg([merge_val(bit, x, y) for x, y in zip(a.items, b.items)], a.kind)
+    if isinstance(bit, BitVal) and (isinstance(a, BV) or isinstance(b, BV)) and isinstance(a, (BV, Int)) and isinstance(b, (BV, Int)):
+        # words: a position that is 0 without the condition and 1 with it is the condition bit itself
+        n_ = len(a.e) if isinstance(a, BV) else len(b.e)
+        ea = a.e if isinstance(a, BV) else bv_of_int(a.v, n_).e
+        eb = b.e if isinstance(b, BV) else bv_of_int(b.v, n_).e
+        if len(ea) == len(eb):
+            out = []
+            for x, y in zip(ea, eb):
+                if x == y:
+                    out.append(x)
+                elif x == 0 and y == 1:
+                    out.append(bit)
+                else:
+                    return TOP
+            return BV(out)
     return TOP
 
 
@@ -1619,6 +1661,12 @@ class Interp:
             fr.storev(dest, fr.operand(args[0]))
             return
         if trait == 'std::convert::AsRef' or trait == 'std::convert::AsMut':
+            if c.get('res_local') and self.facts.body(res) is not None and len(args) == 1:
+                # a local impl (the repr newtypes: `&self.0`): the reference it really returns
+                try:
+                    return self._inline_call(fr, t, res, pth)
+                except NotDerivable:
+                    pass
             fr.storev(dest, fr.operand(args[0]))
             return
         if trait in ('CurveProjective', 'CurveAffine') and name in ('into_affine', 'into_projective'):
